@@ -22,19 +22,19 @@ import (
 type avKind int
 
 const (
-	avUnknown avKind = iota
-	avInt            // concrete int
-	avBool           // concrete bool
-	avByteIn         // the input byte of this iteration (class known to the run)
-	avByteConst      // constant byte
-	avErrNil         // nil error
-	avErrIn          // the error returned by ReadByte in this iteration (non-nil)
-	avErrGlobal      // load of a package-level error variable (S = name)
-	avSym            // opaque symbol (S = name), with integer offset Off for n
-	avAddrField      // &recv.field (S = field name)
-	avAddrBuf        // &b[n+Off]
-	avTuple          // (byte, err) of ReadByte
-	avIface          // make-interface of another value (X)
+	avUnknown   avKind = iota
+	avInt              // concrete int
+	avBool             // concrete bool
+	avByteIn           // the input byte of this iteration (class known to the run)
+	avByteConst        // constant byte
+	avErrNil           // nil error
+	avErrIn            // the error returned by ReadByte in this iteration (non-nil)
+	avErrGlobal        // load of a package-level error variable (S = name)
+	avSym              // opaque symbol (S = name), with integer offset Off for n
+	avAddrField        // &recv.field (S = field name)
+	avAddrBuf          // &b[n+Off]
+	avTuple            // (byte, err) of ReadByte
+	avIface            // make-interface of another value (X)
 )
 
 type AV struct {
@@ -250,15 +250,15 @@ func (m *tblMachine) className(i int) string {
 type tblRun struct {
 	noHeader bool // interpreting a helper: no loop header to stop at
 	depth    int
-	m      *tblMachine
-	ev     inEvent
-	env    map[ssa.Value]AV
-	state  int64
-	out    []AV
-	unread bool
-	read   bool
-	free   map[string]bool // oracle assignments for named free conditions
-	path   []int
+	m        *tblMachine
+	ev       inEvent
+	env      map[ssa.Value]AV
+	state    int64
+	out      []AV
+	unread   bool
+	read     bool
+	free     map[string]bool // oracle assignments for named free conditions
+	path     []int
 }
 
 func (m *tblMachine) Run(st int64, ev inEvent, free map[string]bool) tblOutcome {
